@@ -379,6 +379,8 @@ def finish(b, extra_phys=False):
         if b.algs:
             Z = ca.vertcat(*[ca.vec(s) for s in b.algs])
             outs['Zc'] = ocp.sample(Z, grid='integrator_roots')[1]
+            outs['Zn'] = ocp.sample(Z, grid='control')[1]
+            outs['Zi'] = ocp.sample(Z, grid='integrator')[1]
     b.phys_names = list(outs.keys())
     b.phys_shapes = {k: ca.MX(v).shape for k, v in outs.items()}
     F = ca.Function('phys', [x, p], [ca.MX(v) for v in outs.values()], {'allow_free': True})
